@@ -592,6 +592,26 @@ func (s *mrState) assign(st *ast.AssignStmt, loopDepth int) {
 				}
 				return
 			}
+			// insertion into a set: whatever the key, what is stored is the same constant (seen[name] = true,
+			// names[name] = struct{}{}), so the last writer writes what every writer writes
+			if st.Tok == token.ASSIGN {
+				switch r := ast.Unparen(rhs).(type) {
+				case *ast.Ident:
+					if r.Name == "true" {
+						s.commut++
+						return
+					}
+				case *ast.CompositeLit:
+					if len(r.Elts) == 0 {
+						if tv, ok := s.info.Types[r]; ok {
+							if stt, isSt := tv.Type.Underlying().(*types.Struct); isSt && stt.NumFields() == 0 {
+								s.commut++
+								return
+							}
+						}
+					}
+				}
+			}
 			s.fail(st.Pos(), "map update %s under a key other than the range key (last writer wins in map order)", exprStr(lhs))
 		case *types.Slice, *types.Array:
 			idx := objOf(s.info, l.Index)
